@@ -54,6 +54,9 @@ func dustScenario(a dustArg) (*scenarioResult, error) {
 	if a.Kind == "sentinel-late-revoke" {
 		return sentinelLateRevoke(a)
 	}
+	if a.Kind == "liquidity-delisted" {
+		return liquidityDelisted(a)
+	}
 	if a.Kind == "revoked-pillar" {
 		return revokedPillar(a)
 	}
@@ -204,7 +207,7 @@ func dustRuns(run *core.Run, prop string) []ledgerRun {
 	args := []dustArg{{Seed: run.Seed, Amounts: [2]int64{1, 0}, Move: 1}, {Seed: run.Seed, Amounts: [2]int64{1, 1}, Move: 0}, {Seed: run.Seed, Amounts: [2]int64{3, 0}, Move: 2},
 		{Kind: "sentinel-late-revoke", Seed: run.Seed}, {Kind: "revoked-pillar", Seed: run.Seed}, {Kind: "liquidity-first-stake", Seed: run.Seed}}
 	if prop == "C10" {
-		args = args[3:5] // the scenarios with a release of collateral in them
+		args = append(args[3:5:5], dustArg{Kind: "liquidity-delisted", Seed: run.Seed}) // the scenarios with a release of locked funds in them
 	}
 	if run.Thorough() && prop != "C10" {
 		args = append(args, dustArg{Seed: run.Seed, Amounts: [2]int64{2, 1}, Move: 2}, dustArg{Seed: run.Seed, Amounts: [2]int64{1, 0}, Move: 0}, dustArg{Seed: run.Seed, Amounts: [2]int64{100000000, 1}, Move: 99999999})
@@ -234,7 +237,7 @@ func dustRuns(run *core.Run, prop string) []ledgerRun {
 		}
 		for _, f := range outs[i].Findings {
 			fp := "C09"
-			if args[i].Kind == "revoked-pillar" {
+			if args[i].Kind == "revoked-pillar" || args[i].Kind == "liquidity-delisted" {
 				fp = prop
 			}
 			if f[0] == "fixture" {
@@ -609,5 +612,94 @@ func liquidityFirstStake(a dustArg) (*scenarioResult, error) {
 	name := fmt.Sprintf("liquidity first-stake scenario seed=%d enforced=true", a.Seed)
 	res.Run = ledgerRun{Name: name, Events: pr.Events, Note: pr.Note}
 	res.Stats = fmt.Sprintf("%s: %d momentums, %d blocks, %d liquidity stake entries", name, pr.Momentums, pr.Blocks, n)
+	return res, nil
+}
+
+// liquidityDelisted: a liquidity stake is locked; the administrator takes its token off the list; the owner asks for the stake
+// back before, at and after its expiry. The lock holds whatever the list says (C10: never earlier than its lock allows) - decided
+// by ReleasedRight on the validated trace.
+func liquidityDelisted(a dustArg) (*scenarioResult, error) {
+	walk.LabConstants()
+	verifier.ReceiverMismatchEnforcementHeight = 1
+	res := &scenarioResult{}
+	find := func(key, format string, args ...interface{}) {
+		res.Findings = append(res.Findings, [2]string{key, fmt.Sprintf(format, args...)})
+	}
+	node.Clock.Set(time.Unix(1000000000, 0))
+	cap := ledger.StartCapture()
+	defer cap.Stop()
+	p, err := node.New("liquidity-delisted", node.Options{Producer: true})
+	if err != nil {
+		return nil, err
+	}
+	defer p.Stop()
+	f := &cellFixture{n: p, w: walk.New(p, a.Seed), reasons: map[string]int{}}
+	if err := f.prepare(); err != nil {
+		return nil, err
+	}
+	lock := constants.StakeTimeMinSec * 4 // 240 s = 24 momentums
+	st := f.send(g.User1, types.LiquidityContract, f.token, unitsOf(3), definition.ABILiquidity.PackMethodPanic(definition.LiquidityStakeMethodName, lock))
+	if st == nil {
+		return nil, fmt.Errorf("liquidity-delisted scenario: stake refused (%v)", f.reasons)
+	}
+	if err := p.ProduceN(3); err != nil {
+		return nil, err
+	}
+	staked := p.Height()
+	// the list now holds the other token only (two-step time challenge)
+	tuple := definition.ABILiquidity.PackMethodPanic(definition.SetTokenTupleMethodName, []string{f.foreignToken.String()}, []uint32{10000}, []uint32{10000}, []*big.Int{big.NewInt(2000)})
+	f.send(g.User5, types.LiquidityContract, types.ZeroTokenStandard, big.NewInt(0), tuple)
+	if err := p.ProduceN(int(constants.MinSoftDelay) + 4); err != nil {
+		return nil, err
+	}
+	f.send(g.User5, types.LiquidityContract, types.ZeroTokenStandard, big.NewInt(0), tuple)
+	if err := p.ProduceN(2); err != nil {
+		return nil, err
+	}
+	li, err := definition.GetLiquidityInfo(p.Chain.GetFrontierMomentumStore().GetAccountStore(types.LiquidityContract).Storage())
+	if err != nil || len(li.TokenTuples) != 1 {
+		return nil, fmt.Errorf("liquidity-delisted scenario: the token was not taken off the list (%v)", err)
+	}
+	cancel := definition.ABILiquidity.PackMethodPanic(definition.CancelLiquidityStakeMethodName, st.Hash)
+	asked := 0
+	for p.Height() < staked+uint64(lock/10)+8 {
+		if (p.Height()-staked)%5 == 0 || p.Height() >= staked+uint64(lock/10)-2 {
+			if f.send(g.User1, types.LiquidityContract, types.ZeroTokenStandard, big.NewInt(0), cancel) != nil {
+				asked++
+			}
+		}
+		if err := p.Produce(0); err != nil {
+			find("producer-stops", "the producing node cannot produce: %v (problems %v)", err, p.Problems)
+			break
+		}
+	}
+	if drained, err := f.w.Drain(40); err != nil || !drained {
+		find("inbox-not-drained", "the contract inboxes do not drain (%v)", err)
+	}
+	for _, pb := range p.Problems {
+		find("producer-problem", "producing pillar reported: %s", pb)
+	}
+	left := 0
+	definition.IterateLiquidityStakeEntries(p.Chain.GetFrontierMomentumStore().GetAccountStore(types.LiquidityContract).Storage(), func(e *definition.LiquidityStakeEntry) error {
+		if e.Id == st.Hash && e.Amount.Sign() > 0 {
+			left++
+		}
+		return nil
+	})
+	if left != 0 {
+		find("matured-stake-of-a-delisted-token-not-released", "the stake of the delisted token is still held %d momentums after its expiry although its owner asked for it %d times", p.Height()-staked-uint64(lock/10), asked)
+	}
+	ids := cap.ChainIDs()
+	if len(ids) != 1 {
+		return nil, fmt.Errorf("expected one chain in capture, got %v", ids)
+	}
+	pr := ledger.NewProjector()
+	pr.Observer = ledger.StandardObserver(walk.EpochMomentums)
+	if err := cap.Project(ids[0], pr); err != nil {
+		return nil, err
+	}
+	name := fmt.Sprintf("liquidity delisted-token scenario seed=%d enforced=true", a.Seed)
+	res.Run = ledgerRun{Name: name, Events: pr.Events, Note: pr.Note}
+	res.Stats = fmt.Sprintf("%s: %d momentums, %d blocks, the stake was asked back %d times", name, pr.Momentums, pr.Blocks, asked)
 	return res, nil
 }
